@@ -46,13 +46,14 @@ class IoModel:
         self.models = models
         self.disk = None          # optional hook object (see DiskHook)
         self.spill = False        # BufWriter may flush early (record larger than its buffer)
+        self.fault_filter = None  # optional (op, info) -> bool: which calls of `call` may fail (default: all)
         models.io_hook = self
         self.register(models)
 
     # -- core: one fallible call
     def call(self, ex, st, d, r, op, okval, fallible=True, **info):
         outs = []
-        if fallible and st.faults_left > 0:
+        if fallible and st.faults_left > 0 and (self.fault_filter is None or self.fault_filter(op, info)):
             s2 = st.clone()
             s2.faults_left -= 1
             s2.event("io", op=op, outcome="err", **info)
